@@ -203,6 +203,43 @@ func CondEdges(v ssa.Value) (tr, fa []Edge) {
 				if r.Op == token.NOT {
 					walk(r, !neg)
 				}
+			case *ssa.Phi:
+				// b := a && v  is  phi(false, v): b true implies v true;
+				// b := a || v  is  phi(true, v): b false implies v false.
+				// Only that direction is added.
+				allFalse, allTrue := true, true
+				for _, e := range r.Edges {
+					if e == v {
+						continue
+					}
+					if k, ok := ConstBool(e); ok {
+						if k {
+							allFalse = false
+						} else {
+							allTrue = false
+						}
+					} else {
+						allFalse, allTrue = false, false
+					}
+				}
+				if allFalse == allTrue {
+					continue // no constants at all, or mixed
+				}
+				pt, pf := CondEdges(r)
+				// r true => v (possibly negated) ... with neg: v is !orig
+				if allFalse { // and-shape: r true => v true
+					if neg {
+						fa = append(fa, pt...)
+					} else {
+						tr = append(tr, pt...)
+					}
+				} else { // or-shape: r false => v false
+					if neg {
+						tr = append(tr, pf...)
+					} else {
+						fa = append(fa, pf...)
+					}
+				}
 			case *ssa.BinOp:
 				if r.Op == token.EQL || r.Op == token.NEQ {
 					other := r.Y
@@ -713,6 +750,10 @@ type LenCmp struct {
 	Op    token.Token
 	Const int64
 	Swap  bool // constant on the left
+	// Via: the length reaches the comparison through a phi (result temporary of
+	// an inlined helper whose error paths put a constant there); the comparison
+	// speaks about len(Of) only on the paths entering through this context.
+	Via string
 }
 
 // Eval evaluates the comparison for a given length.
@@ -739,7 +780,18 @@ func (l LenCmp) Eval(n int64) bool {
 }
 
 // Edges returns the CFG edges on which the comparison is true / false.
-func (l LenCmp) Edges() (tr, fa []Edge) { return CondEdges(l.Bin) }
+func (l LenCmp) Edges() (tr, fa []Edge) {
+	tr, fa = CondEdges(l.Bin)
+	if l.Via != "" {
+		for i := range tr {
+			tr[i].Via = l.Via
+		}
+		for i := range fa {
+			fa[i].Via = l.Via
+		}
+	}
+	return tr, fa
+}
 
 // LenCmps finds all comparisons of builtin len(x) with integer constants in fn.
 func LenCmps(fn *ssa.Function) []LenCmp {
@@ -758,6 +810,14 @@ func LenCmps(fn *ssa.Function) []LenCmp {
 			if of, ok := lenOf(bo.X); ok {
 				if c, ok := ConstInt(bo.Y); ok {
 					out = append(out, LenCmp{Bin: bo, Of: of, Op: bo.Op, Const: c})
+				}
+			} else if phi, isPhi := bo.X.(*ssa.Phi); isPhi {
+				if c, ok := ConstInt(bo.Y); ok {
+					for i, e := range phi.Edges {
+						if of, ok := lenOf(e); ok {
+							out = append(out, LenCmp{Bin: bo, Of: of, Op: bo.Op, Const: c, Via: ViaOf(phi.Block(), i)})
+						}
+					}
 				}
 			} else if of, ok := lenOf(bo.Y); ok {
 				if c, ok := ConstInt(bo.X); ok {
